@@ -140,14 +140,20 @@ def crash_signature(rc, err):
 
 
 # ------------------------------------------------------------------ minimisation of hard crashes (ddmin on bytes)
-def minimise_crash(binary, prop, data, sig_class, budget_s=60, extra=None):
+def minimise_crash(binary, prop, data, sig_class, budget_s=40, extra=None):
     t0 = time.time()
     tmp = os.path.join(RUN_DIR, "min.case")
+    slow = [False]
 
     def fails(b):
+        if slow[0]:
+            return False
         with open(tmp, "wb") as f:
             f.write(b)
-        r = run_replay(binary, prop, tmp, trace=True, extra=extra, timeout=120)
+        t1 = time.time()
+        r = run_replay(binary, prop, tmp, trace=True, extra=extra, timeout=20)
+        if time.time() - t1 > 5:
+            slow[0] = True      # replays this slow: no minimisation
         return r["crashed"] and r["sig"].split("/")[1:3] == sig_class
 
     best = data
@@ -222,7 +228,7 @@ class Worker:
 
 
 def run_campaign(binary, prop, plan, lenscale, seed, thorough, param, logdir, max_restarts=6,
-                 stall_s=900):
+                 stall_s=300):
     """plan = [(stratum, cases, max_size)].  Runs one worker per entry, JOBS at a time.  Returns list of
     failure records {type: 'falsified'|'crash'|'hang', case: path, worker: id}"""
     pending = [Worker(i, binary, prop, st, cases, size, lenscale, seed, thorough, (param % i) if "%d" in (param or "") else param, logdir)
@@ -364,8 +370,11 @@ def validate_evidence(ev):
 def write_evidence(prop, tier, seed, cov, assumptions, wall, violations):
     ev = {"property_id": prop, "tier": tier, "seed": seed, "level": "exploration", "coverage": cov,
           "assumptions": assumptions, "wall_s": round(wall, 1), "violations": violations}
-    os.makedirs(os.path.join(VERIF, "evidence"), exist_ok=True)
-    path = os.path.join(VERIF, "evidence", prop + ".json")
+    evdir = os.path.join(VERIF, "evidence")
+    if os.environ.get("VERIF_REPO"):   # sensitivity runs against a scratch copy never touch the real evidence
+        evdir = os.path.join(vbuild.BUILD_ROOT, "evidence")
+    os.makedirs(evdir, exist_ok=True)
+    path = os.path.join(evdir, prop + ".json")
     with open(path + ".tmp", "w") as f:
         json.dump(ev, f, indent=1, ensure_ascii=True)
     os.replace(path + ".tmp", path)
@@ -383,10 +392,11 @@ def check(prop, tier):
     shutil.rmtree(RUN_DIR, ignore_errors=True)
     os.makedirs(RUN_DIR)
     ev_path = os.path.join(VERIF, "evidence", prop + ".json")
-    try:
-        os.remove(ev_path)
-    except OSError:
-        pass
+    if not os.environ.get("VERIF_REPO"):
+        try:
+            os.remove(ev_path)
+        except OSError:
+            pass
     violations = []     # (replay path, description)
     notes = []
     selftest_fail = []
@@ -455,7 +465,13 @@ def check(prop, tier):
                 notes.append("INCONCLUSIVE property=%s stage=%s reason=worker-lost-cases n=%d" % (prop, st["name"], lost))
             # triage
             seen_sigs = set()
+            # at most a handful of each type: one root cause usually fails every worker
+            fails.sort(key=lambda f: {"falsified": 0, "crash": 1, "hang": 2}.get(f["type"], 3))
+            budget = {"falsified": 4, "crash": 2, "hang": 1}
             for fl in fails:
+                if budget.get(fl["type"], 0) <= 0:
+                    continue
+                budget[fl["type"]] -= 1
                 v = triage(binary, prop, st, fl)
                 if v is None:
                     continue
@@ -576,7 +592,13 @@ def triage(binary, prop, st, fl):
             fl = dict(fl, type="crash" if r["crashed"] else "falsified")
         else:
             return None
-    results = [run_replay(binary, prop, path, extra=extra, trace=True) for _ in range(3)]
+    # three isolated replays must agree (two when a single replay takes more than 20 s)
+    results = []
+    t1 = time.time()
+    results.append(run_replay(binary, prop, path, extra=extra, trace=True, timeout=150))
+    nrep = 2 if time.time() - t1 > 20 else 3
+    while len(results) < nrep:
+        results.append(run_replay(binary, prop, path, extra=extra, trace=True, timeout=150))
     if fl["type"] == "crash":
         if not all(r["crashed"] for r in results):
             if any(r["crashed"] for r in results):
@@ -597,13 +619,13 @@ def triage(binary, prop, st, fl):
             open(path, "wb").write(small)
         return ("violation", path, sig)
     ok = [r for r in results if r["json"] and r["json"]["reportable"] > 0]
-    if len(ok) == 3:
+    if len(ok) == len(results):
         return ("violation", path, describe(results[0]))
     if any(r["crashed"] for r in results):
         return ("violation", path, [r for r in results if r["crashed"]][0]["sig"])
     if not ok:
         return ("flaky", "falsified case %s passes on replay" % path)
-    return ("flaky", "falsified case %s fails only %d/3 replays" % (path, len(ok)))
+    return ("flaky", "falsified case %s fails only %d/%d replays" % (path, len(ok), len(results)))
 
 
 def crash_op(err):
